@@ -53,10 +53,24 @@ func Tpl(marker string) corev1.PodTemplateSpec {
 }
 
 // MarkerOfTemplate reads the marker of a template.
-func MarkerOfTemplate(t *corev1.PodTemplateSpec) string { return t.Labels[MarkerLabel] }
+// Two templates that differ only in the ORDER of a container's env list are different templates
+// (expansion and duplicate resolution depend on it), so the order is part of the marker.
+func MarkerOfTemplate(t *corev1.PodTemplateSpec) string {
+	return t.Labels[MarkerLabel] + envOrder(t.Spec.Containers)
+}
 
 // MarkerOfPod reads the marker a pod was built from (oracle tplOf).
-func MarkerOfPod(p *corev1.Pod) string { return p.Labels[MarkerLabel] }
+func MarkerOfPod(p *corev1.Pod) string { return p.Labels[MarkerLabel] + envOrder(p.Spec.Containers) }
+
+func envOrder(cs []corev1.Container) string {
+	out := ""
+	for _, c := range cs {
+		for _, e := range c.Env {
+			out += "~" + e.Name + "=" + e.Value
+		}
+	}
+	return out
+}
 
 // IntStr helpers.
 func IS(i int) *intstr.IntOrString    { v := intstr.FromInt(i); return &v }
